@@ -598,6 +598,38 @@ func init() {
 		}
 		return Tuple(nil)
 	}
+	// sync.Pool: a deterministic LIFO free list (what a single goroutine observes when no
+	// GC intervenes); Get on an empty pool calls New, or returns nil without one.
+	intrinsics["(*sync.Pool).Put"] = func(e *Engine, fn *ssa.Function, a []Value) Value {
+		p := a[0].(Ptr)
+		if iv, ok := a[1].(Iface); ok && iv.T == nil {
+			return Tuple(nil)
+		}
+		key := fmt.Sprintf("pool!%p", p.C)
+		l, _ := e.hostState[key].([]Value)
+		e.hostState[key] = append(l, a[1])
+		return Tuple(nil)
+	}
+	intrinsics["(*sync.Pool).Get"] = func(e *Engine, fn *ssa.Function, a []Value) Value {
+		p := a[0].(Ptr)
+		key := fmt.Sprintf("pool!%p", p.C)
+		if l, _ := e.hostState[key].([]Value); len(l) > 0 {
+			e.hostState[key] = l[:len(l)-1]
+			return l[len(l)-1]
+		}
+		st := fn.Signature.Recv().Type().(*types.Pointer).Elem().Underlying().(*types.Struct)
+		for i := 0; i < st.NumFields(); i++ {
+			if st.Field(i).Name() == "New" {
+				nf := (*p.C).(Struct)[i]
+				if _, isNil := nf.(nilFunc); isNil {
+					return Iface{}
+				}
+				return e.callValue(nf, nil, nil)
+			}
+		}
+		e.unsupported("sync.Pool without a New field")
+		return nil
+	}
 	intrinsics["maps.clone"] = func(e *Engine, fn *ssa.Function, a []Value) Value {
 		in := a[0].(Iface)
 		m, _ := in.V.(*Map)
